@@ -62,4 +62,17 @@ PROPS = {
         builds=[('rel', 1.0, 1.0)],
         must_observe=['block_scalars_matching', 'chomp_strip', 'chomp_clip', 'chomp_keep', 'explicit_indicator', 'auto_detected', 'eof_no-final-newline', 'content_indent_beyond_buffer'],
         assumptions=COMMON_ASSUME + ["a content-less scalar is empty under strip and clip (YAML 1.2.2 example 8.6)", "explicit indentation indicators are not generated at the top level (their meaning there is contested)"]),
+    'C07': dict(
+        rule=("inputs from the C01 generators (exhaustive small scope, soups, line soups, corpus mutants), model-rendered streams, the yaml-test-suite "
+              "documents and alias/duplicate-key/tag-mismatch templates and their mutants; a tee receiver logs the very events the loader was given and an "
+              "independent fold of that log is compared with the loaded documents; non-trivial = accepted input with at least one collection; distinct = distinct input texts"),
+        builds=[('rel', 1.0, 1.0)],
+        must_observe=['accepted_inputs', 'rejected_inputs', 'documents_compared', 'h4_events', 'documents_with_aliases', 'documents_with_duplicate_keys'],
+        assumptions=COMMON_ASSUME + ["scalar resolution uses the library's own value_from_cow_and_metadata (resolution is C08's subject)",
+                                     "for a repeated key the position of either its first or its last occurrence is accepted"]),
+    'C19': dict(
+        rule=("same inputs as C07; non-trivial = accepted input with at least one collection; distinct = distinct input texts"),
+        builds=[('rel', 1.0, 1.0)],
+        must_observe=['node_type_comparisons', 'deferred_loads', 'deferred_docs_with_representations', 'marked_pairs_with_different_spans', 'scalar_round_trips'],
+        assumptions=COMMON_ASSUME + ["the return value of parse_representation_recursive is checked in both directions only when resolution did not merge mapping keys"]),
 }
